@@ -8,8 +8,9 @@
 //! The outcome class (`ok <digest>` / `err <error>` / `panic`) is written as the implementation's line and is
 //! diffed against the Lean Cursor-monad model of the same decoder (`RtcModel/C07*.lean`).
 //! Property oracles evaluated directly on the implementation: any panic → `panic:<entry>:<file:line>`,
-//! call slower than the deadline → `hang:<entry>`, allocation above `2·(a·len+b)+4096` → `alloc:<entry>`
-//! (a, b are the constants of the `allocBound_*` theorem; factor 2 = `Vec` doubling).
+//! call slower than the deadline → `hang:<entry>`, allocation above `2·(a·len+b)+512` → `alloc:<entry>`
+//! (a, b are EXACTLY the constants of the `allocBound_*` theorem; factor 2 = `Vec` doubling). In addition the measured
+//! bytes of every compared case are sent to the model (`A=<bytes>`), whose own `alloc` counter must cover them.
 //!
 //! NOTE: this module installs the process-wide `#[global_allocator]` (a pass-through to `System` that adds
 //! the requested sizes to a thread-local counter). Only one may exist per binary.
@@ -51,7 +52,14 @@ unsafe impl std::alloc::GlobalAlloc for Counting {
 }
 #[global_allocator]
 static GLOBAL: Counting = Counting;
-thread_local! { static LAST_USED: Cell<u64> = const { Cell::new(0) }; }
+thread_local! { static LAST_USED: Cell<u64> = const { Cell::new(0) }; static MARK: Cell<u64> = const { Cell::new(u64::MAX) }; static START: Cell<u64> = const { Cell::new(0) }; }
+/// called by a stream's closure right after the decoder proper returned: allocation after this point (digest
+/// formatting, operations on the parsed value) is not attributed to the decoder
+/// called right before the decoder proper (after the harness' own input copies)
+pub fn start_alloc() { START.with(|m| m.set(BYTES.with(|b| b.get()))); }
+pub fn mark_alloc() { MARK.with(|m| m.set(BYTES.with(|b| b.get()))); }
+/// slack of every allocation comparison (error objects, minimum `Vec` capacities) — same constant as `allocSlack` in Drv/C07.lean
+pub const ALLOC_SLACK: u64 = 512;
 /// bytes the allocator handed out during the most recent `exec` call on this thread
 pub fn last_alloc_used() -> u64 { LAST_USED.with(|b| b.get()) }
 pub fn alloc_reset() { BYTES.with(|b| b.set(0)); FREED.with(|b| b.set(0)); }
@@ -130,10 +138,11 @@ pub fn exec<F: FnOnce() -> String + std::panic::UnwindSafe>(
     let panics0 = panic_count();
     *WATCH.lock() = Some((entry.to_string(), case.clone(), Instant::now()));
     alloc_reset();
+    MARK.with(|m| m.set(u64::MAX)); START.with(|m| m.set(0));
     let t0 = Instant::now();
     let r = catch(f);
     let dt = t0.elapsed();
-    let used = alloc_read();
+    let used = { let m = MARK.with(|m| m.get()); (if m != u64::MAX { m } else { alloc_read() }).saturating_sub(START.with(|m| m.get())) };
     LAST_USED.with(|b| b.set(used));
     *WATCH.lock() = None;
     let out = match r {
@@ -152,7 +161,7 @@ pub fn exec<F: FnOnce() -> String + std::panic::UnwindSafe>(
     };
     if dt > SLOW_LIMIT { run.fail(&format!("hang:{entry}"), &case, &format!("call took {dt:?}")); }
     if let Some((a, b, len)) = bound {
-        let lim = 2 * (a * len + b) + 4096;
+        let lim = 2 * (a * len + b) + ALLOC_SLACK;
         if used > lim { run.fail(&format!("alloc:{entry}"), &case, &format!("allocated {used} bytes for {len} input bytes (limit {lim})")); }
         let k = format!("alloc_max_ratio_x100:{stream}");
         let ratio = used * 100 / (a * len + b).max(1);
@@ -161,7 +170,12 @@ pub fn exec<F: FnOnce() -> String + std::panic::UnwindSafe>(
     }
     let class = out.split(' ').next().unwrap_or("?").to_string();
     run.count(&format!("{stream}:{class}"));
-    run.case(stream, input, &out, nontrivial);
+    // allocation tie: the measured bytes travel to the model, which must account for them (see `handle` in Drv/C07.lean)
+    if bound.is_some() && (out.starts_with("ok ") || out.starts_with("err ")) {
+        run.case(stream, &format!("{input} A={used}"), &format!("{out} a+"), nontrivial);
+    } else {
+        run.case(stream, input, &out, nontrivial);
+    }
     out
 }
 
@@ -278,7 +292,8 @@ pub fn all_targets() -> Vec<Target> {
 fn replay(case: &str) {
     let mut it = case.split(' ');
     let stream = it.next().unwrap_or("");
-    let args: Vec<&str> = it.collect();
+    let mut args: Vec<&str> = it.collect();
+    if args.last().map_or(false, |a| a.starts_with("A=")) { args.pop(); }
     let mut run = Run::new("c07", "/tmp/c07-replay");
     let mut done = false;
     for t in all_targets() {
